@@ -95,7 +95,12 @@ def applyToArg (c : Ctx) (arg : Value) : ER ValueAggregate :=
     | .iterableValue f => do
       let x ← f.iterable.peekExpect
       pure (itemIntoResolvedResult x)
-  | .canon _ | .canonWL .. | .canonMap _ | .canonMapWL .. => unmodelled "ap with canon stream argument"
+  | .canon name => do
+    -- `apply_canon_stream`: the whole canon stream as one value carrying the canon's tetraplet and id
+    let cs ← c.scalars.getCanonStream name
+    let v : JVal := .arr (cs.canonStream.values.map (·.result))
+    pure (ValueAggregate.new v { peerPk := cs.canonStream.tetraplet.peerPk, lens := cs.canonStream.tetraplet.lens } pos (.canon cs.cid))
+  | .canonWL .. | .canonMap _ | .canonMapWL .. => unmodelled "ap with canon stream lens / canon map argument"
 
 /-- update of the scalar store only -/
 def withScalars (c : Ctx) (g : Scalars → ER Scalars) : ER Ctx :=
@@ -115,6 +120,91 @@ def execAp (arg : Value) (out : CallOutput) : M Unit :=
     | none => pure ()
     | some v => setScalar name v
   | _ => throwE (.unmodelled "ap into a stream")
+
+/-- `apply_to_arg(.., should_touch_trace = true)`: a scalar argument takes the position of the `ap` state -/
+def applyToArgStream (c : Ctx) (arg : Value) : ER ValueAggregate :=
+  match arg with
+  | .scalar _ => (applyToArg c arg).bind fun v => .ok { v with tracePos := c.th.tracePos }
+  | _ => applyToArg c arg
+
+def generationOfAp : MergerApResult → Generation
+  | .notMet => .new
+  | .met r => match r.valueSource with
+    | .previousData => .previous r.generation
+    | .currentData => .current r.generation
+
+/-- `ap` into a stream: merge the `ap` state, append the value to the generation the data names (a new
+one otherwise), push the state with the stub generation (compaction fills it in) -/
+def execApStream (i : Instr) (arg : Value) (name : String) (pos : Nat) : M Unit :=
+  joinable (readER fun c => applyToArgStream c arg) >>= fun r =>
+  match r with
+  | none => pure ()
+  | some v =>
+    liftTH i (fun th => th.meetApStart) >>= fun met =>
+    modifyER (fun c => c.addStreamValue v name (generationOfAp met) pos) >>= fun _ =>
+    modifyCtx fun c => { c with th := c.th.meetApEnd [generationStub] }
+
+/-! ## canon (`canon.rs`, `canon_utils/mod.rs`) -/
+
+def Ctx.recordCanonCid (c : Ctx) (peerId : String) (cid : Cid) : Ctx :=
+  if peerId == c.currentPeerId then { c with peerCids := c.peerCids ++ [cid] } else c
+
+/-- the epilog closure of `canon` together with the registration of the canon id that precedes it in
+Rust (`record_canon_cid`, then `set_canon_value`, then `meet_canon_end`): one atomic update — if binding the
+name fails (shadowing: an uncatchable error, the run returns the previous data) nothing is kept -/
+def canonFinish (canonName : String) (cs : CanonStream) (cid : Cid) (registerFor : String) : M Unit :=
+  modifyER fun c => do
+    let sc ← c.scalars.setCanonValue canonName ⟨cs, cid⟩
+    let c := c.recordCanonCid registerFor cid
+    pure { c with scalars := sc, th := c.th.meetCanonEnd (.executed cid) }
+
+/-- `create_canon_stream_for_first_time`: snapshot of the stream as the peer sees it now
+(`stream.iter()`: previous, current, new), tracked in the CID stores, registered and bound -/
+def createCanonFirstTime (env : Env) (canonName stream : String) (streamPos : Nat) (peerId : String) : M Unit :=
+  stateER (fun c =>
+    let values := match c.getStream stream streamPos with
+      | some s => s.all
+      | none => []
+    let cs : CanonStream := ⟨values, { peerPk := peerId }⟩
+    let (cid, st) := trackCanonResult env c.cid cs
+    .ok ((cs, cid), { c with cid := st })) >>= fun r =>
+  canonFinish canonName r.1 r.2 peerId
+
+/-- `handle_canon_executed`: the canon stream is rebuilt from the stores alone (never from the live stream) -/
+def canonExecuted (env : Env) (canonName : String) (peer : Value) (cid : Cid) : M Unit :=
+  readER (fun c => do
+    let peerId ← resolveToString c peer
+    let expected : Tetraplet := { peerPk := peerId }
+    match lookup c.cid.canonResults cid with
+    | none => uncatchable (.valueForCidNotFound "canon result aggregate" cid)
+    | some agg => do
+      let t ← getTetrapletByCid c.cid agg.tetraplet
+      verifyCanon expected t
+      let values ← agg.values.mapM (getCanonValueByCid env c.cid)
+      pure (({ values := values, tetraplet := t } : CanonStream))) >>= fun cs =>
+  canonFinish canonName cs cid cs.tetraplet.peerPk
+
+def execCanon (env : Env) (i : Instr) (peer : Value) (stream : String) (streamPos : Nat) (canonName : String) : M Unit :=
+  liftTH i (fun th => th.meetCanonStart) >>= fun met =>
+  match met with
+  | .canonResult (.executed cid) => canonExecuted env canonName peer cid
+  | .canonResult (.requestSentBy sender) =>
+    -- `handle_canon_request_sent_by`: the peer id is resolved without `joinable!`
+    readER (fun c => resolveToString c peer) >>= fun peerId =>
+    readCtx (·.currentPeerId) >>= fun me =>
+    if me != peerId then
+      modifyCtx fun c => { c with subgraphComplete := false, th := c.th.meetCanonEnd (.requestSentBy sender) }
+    else createCanonFirstTime env canonName stream streamPos peerId
+  | .empty =>
+    joinable (readER fun c => resolveToString c peer) >>= fun r =>
+    match r with
+    | none => pure ()
+    | some peerId =>
+      readCtx (·.currentPeerId) >>= fun me =>
+      if me != peerId then
+        modifyCtx fun c => { c with subgraphComplete := false, nextPeerPks := c.nextPeerPks ++ [peerId],
+                                    th := c.th.meetCanonEnd (.requestSentBy c.currentPeerId) }
+      else createCanonFirstTime env canonName stream streamPos peerId
 
 /-- `are_matchable_eq` -/
 def areMatchableEq (c : Ctx) (a b : Value) : ER Bool := do
@@ -144,7 +234,10 @@ def createScalarIterable (c : Ctx) (iterable : Value) : ER (Option IterableValue
     | .arr a => if a.isEmpty then pure none else pure (some (.lambdaResult a t' p 0))
     | other => catchable (.foldIteratesOverNonArray other l.render)
   | .emptyArray => .ok none
-  | _ => unmodelled "fold over a canon stream"
+  | .canon name => do
+    let cs ← c.scalars.getCanonStream name
+    if cs.canonStream.values.isEmpty then pure none else pure (some (.vec cs.canonStream.values 0))
+  | _ => unmodelled "fold over a canon stream map"
 
 /-- xor: state changes when the left branch failed catchably, before the right branch runs -/
 def xorEnterRight (e : CatchableErr) (c : Ctx) : Ctx :=
@@ -167,14 +260,11 @@ def foldLeave (iterator : String) : Ctx → ER Ctx := fun c =>
 def nextAdvance (iterator : String) : Ctx → ER (Option FoldState × Ctx) := fun c =>
   withScalarsRet c fun s => do
     let fs ← s.getIterable iterator
-    match fs.iterableType with
-    | .stream _ => unmodelled "next in a stream fold"
-    | .scalar =>
-      let (moved, it') := fs.iterable.next
-      if !moved then pure (none, s)
-      else
-        let fs' := { fs with iterable := it' }
-        pure (some fs', (s.setIterableState iterator fs').meetNextBefore)
+    let (moved, it') := fs.iterable.next
+    if !moved then pure (none, s)
+    else
+      let fs' := { fs with iterable := it' }
+      pure (some fs', (s.setIterableState iterator fs').meetNextBefore)
 
 def nextAfter : Ctx → ER Ctx := fun c => withScalars c (·.meetNextAfter)
 
@@ -186,6 +276,45 @@ def nextBack (iterator : String) : Ctx → ER Ctx := fun c =>
 
 def newLeave (name : String) : Ctx → ER (Bool × Ctx) := fun c =>
   withScalarsRet c fun s => let (sc, ok) := s.meetNewEndScalar name; .ok (ok, sc)
+
+/-- `throw_error_if_not_catchable` -/
+def throwIfNotCatchable (res : Res ExecErr Unit) : M Unit :=
+  match res with
+  | .ok () => pure ()
+  | .error (.catchable _) => pure ()
+  | r => reraise r
+
+/-- the fold id of a stream-type fold state (`maybe_meet_*` of next.rs act on those only) -/
+def streamFoldId (fs : FoldState) : Option Nat :=
+  match fs.iterableType with
+  | .stream id => some id
+  | .scalar => none
+
+/-- `maybe_meet_iteration_end` / `maybe_meet_back_iterator` / `maybe_meet_iteration_start` -/
+def maybeTH (i : Instr) (fs : FoldState) (f : Nat → TraceHandler → TR TraceHandler) : M Unit :=
+  match streamFoldId fs with
+  | some id => liftTH' i (f id)
+  | none => pure ()
+
+/-- the `else` branch of `next` when the iterable is exhausted and there is no last instruction -/
+def nextMarkBackIteration (iterator : String) : M Unit :=
+  modifyER fun c =>
+    (c.scalars.getIterable iterator).bind fun fs =>
+      match fs.iterableType with
+      | .stream _ =>
+        if !fs.backIterationStarted then
+          .ok { c with scalars := c.scalars.setIterableState iterator { fs with backIterationStarted := true }, subgraphComplete := false }
+        else .ok c
+      | .scalar => .ok c
+
+/-- `get_mut_stream` of fold_stream.rs (`unwrap`) -/
+def foldStreamGet (name : String) (pos : Nat) : M Stream :=
+  readER fun c => match c.getStream name pos with
+    | some s => .ok s
+    | none => .panic "fold_stream.rs:get_mut_stream:streams.get_mut(..).unwrap()"
+
+def newLeaveCanon (name : String) : Ctx → ER (Bool × Ctx) := fun c =>
+  withScalarsRet c fun s => let (sc, ok) := s.meetNewEndCanon name; .ok (ok, sc)
 
 def isNext : Instr → Bool
   | .next _ => true
@@ -239,7 +368,11 @@ def execInner (env : Env) (fuel : Nat) (i : Instr) : M Unit :=
     | none => pure ()
     | some false => exec env fuel body
     | some true => throwE (.catchable .mismatchValuesEqual)
-  | .ap arg out => execAp arg out
+  | .ap arg out =>
+    match out with
+    | .stream name pos => execApStream i arg name pos
+    | _ => execAp arg out
+  | .canon peer stream streamPos canonName => execCanon env i peer stream streamPos canonName
   | .fail arg => execFail arg
   | .foldScalar iterable iterator body last => do
     match ← joinable (readER fun c => createScalarIterable c iterable) with
@@ -250,21 +383,29 @@ def execInner (env : Env) (fuel : Nat) (i : Instr) : M Unit :=
       modifyER (foldLeave iterator)
       reraise res
   | .next iterator => do
+    let fs0 ← readER fun c => c.scalars.getIterable iterator
+    maybeTH i fs0 (fun id th => th.meetIterationEnd id)
     match ← stateER (nextAdvance iterator) with
     | none =>
+      maybeTH i fs0 (fun id th => th.meetBackIterator id)
       let fs ← readER fun c => c.scalars.getIterable iterator
       match fs.lastInstrHead with
       | some lastInstr =>
         modifyCtx fun c => { c with subgraphComplete := true }
         exec env fuel lastInstr
-      | none => pure ()
+      | none => nextMarkBackIteration iterator
     | some fs =>
+      -- `maybe_meet_iteration_start` (before `meet_next_before` in Rust; they touch different parts of the state)
+      let item ← readER fun _ => fs.iterable.peekExpect
+      maybeTH i fs (fun id th => th.meetIterationStart id item.2.2.1)
       let res ← tryM (exec env fuel fs.instrHead)
       modifyER nextAfter
       match res with
-      | .ok () => modifyER (nextBack iterator)
+      | .ok () =>
+        modifyER (nextBack iterator)
+        maybeTH i fs (fun id th => th.meetBackIterator id)
       | r => reraise r
-  | .new arg body _ _ =>
+  | .new arg body spanLeft spanRight =>
     match arg with
     | .scalar name => do
       modifyCtx fun c => { c with scalars := c.scalars.meetNewStartScalar name }
@@ -277,8 +418,72 @@ def execInner (env : Env) (fuel : Nat) (i : Instr) : M Unit :=
           let d ← readCtx fun c => c.scalars.nonIterable.currentDepth
           throwE (.uncatchable (.scalarsStateCorrupted name d))
       | r => reraise r
-    | _ => throwE (.unmodelled "new on a stream / map / canon stream")
+    | .stream name => do
+      modifyCtx fun c => c.streamScopeStart name spanLeft spanRight
+      let res ← tryM (exec env fuel body)
+      -- epilog: the scope is closed and its stream instance compactified whatever the body returned
+      let ep ← tryM (modifyER fun c => c.streamScopeEnd name)
+      match res, ep with
+      | .ok (), .ok () => pure ()
+      | .ok (), e => reraise e
+      | r, _ => reraise r
+    | .canon name => do
+      modifyCtx fun c => { c with scalars := c.scalars.meetNewStartCanon name }
+      let res ← tryM (exec env fuel body)
+      let ok ← stateER (newLeaveCanon name)
+      match res with
+      | .ok () =>
+        if ok then pure ()
+        else do
+          let d ← readCtx fun c => c.scalars.canonStreams.currentDepth
+          throwE (.uncatchable (.scalarsStateCorrupted name d))
+      | r => reraise r
+    | _ => throwE (.unmodelled "new on a stream map / canon stream map")
+  | .foldStream stream streamPos iterator body last _ => do
+    let exists_ ← readCtx fun c => (c.getStream stream streamPos).isSome
+    if !exists_ then makeSubgraphIncomplete
+    else do
+      -- `tracker.meet_fold_stream()`
+      let foldId ← stateER fun c => .ok (c.foldStreamCount + 1, { c with foldStreamCount := c.foldStreamCount + 1 })
+      liftTH' i (fun th => th.meetFoldStart foldId)
+      let s ← foldStreamGet stream streamPos
+      let (st, cur, s') := metFoldStart s
+      modifyCtx fun c => c.setStream stream streamPos s'
+      let complete ← execFoldStreamLoop env fuel fuel i stream streamPos iterator body last foldId st cur false
+      modifyCtx fun c => { c with subgraphComplete := complete }
+      liftTH' i (fun th => th.meetFoldEnd foldId)
   | _ => throwE (.unmodelled ("instruction " ++ i.render))
+
+/-- the `while let Continue(iterables)` loop of `execute_with_stream`; `n` bounds the number of rounds
+(each round consumes at least one new generation; the stream size limit bounds them) -/
+def execFoldStreamLoop (env : Env) (fuel : Nat) : Nat → Instr → String → Nat → String → Instr → Option Instr → Nat →
+    Option (List (List ValueAggregate)) → StreamCursor → Bool → M Bool
+  | _, _, _, _, _, _, _, _, none, _, acc => pure acc
+  | 0, _, _, _, _, _, _, _, some _, _, _ => throwE (.unmodelled "out of fuel")
+  | n + 1, i, stream, streamPos, iterator, body, last, foldId, some iterables, cur, acc => do
+    let acc' ← execFoldIterations env fuel i iterator body last foldId iterables acc
+    let s ← foldStreamGet stream streamPos
+    let (st, cur', s') := metIterationEnd cur s
+    modifyCtx fun c => c.setStream stream streamPos s'
+    execFoldStreamLoop env fuel n i stream streamPos iterator body last foldId st cur' acc'
+
+/-- `execute_iterations`: one `fold` per generation slice -/
+def execFoldIterations (env : Env) (fuel : Nat) (i : Instr) (iterator : String) (body : Instr) (last : Option Instr) (foldId : Nat) :
+    List (List ValueAggregate) → Bool → M Bool
+  | [], acc => pure acc
+  | vals :: rest, acc =>
+    match vals with
+    | [] => execFoldIterations env fuel i iterator body last foldId rest acc   -- `peek()` is `None`: skipped
+    | v :: _ => do
+      liftTH' i (fun th => th.meetIterationStart foldId v.tracePos)
+      -- `fold(..)` of fold_scalar.rs with `IterableType::Stream(fold_id)`
+      modifyER (foldEnter iterator { iterable := .vec vals 0, iterableType := .stream foldId, instrHead := body, lastInstrHead := last })
+      let res ← tryM (exec env fuel body)
+      modifyER (foldLeave iterator)
+      throwIfNotCatchable res
+      liftTH' i (fun th => th.meetGenerationEnd foldId)
+      let complete ← readCtx (·.subgraphComplete)
+      execFoldIterations env fuel i iterator body last foldId rest (acc || complete)
 
 /-- `execute_subgraph` of par.rs: returns (error of a failed subgraph, observed completeness) -/
 def execSubgraph (env : Env) (fuel : Nat) (par sub : Instr) (t : SubgraphType) : M (Option ExecErr × Bool) := do
